@@ -103,6 +103,18 @@ class relabel_copy(Derivation):
         return sp
 
 
+class relabel_inplace(relabel_copy):
+    """relabel_atoms(mapping, copy=False): the graph itself is returned and has the renamed views (C11: 'gives the same
+    labelled graph whether done in place or into a copy' - both meet the same specification)"""
+    result_is_new = False
+    source_untouched = False
+    result_is_self = True
+
+    def call(self, it, g, cname):
+        (kind, name, pos, kw), sym = super().call(it, g, cname)
+        return (kind, name, pos, {"copy": False}), sym
+
+
 class OneShot:
     """an iterable that can be traversed once (iterator / generator argument)"""
 
@@ -298,4 +310,4 @@ class product(_side):
     keep_label, method = "FORMED", "product"
 
 
-DERIVATIONS = {"reactant": reactant, "product": product, "reverse_reaction": reverse_reaction, "subgraph(any size)": subgraph_any, "copy": copy, "copy_constructor": copy_constructor, "relabel_atoms(copy=True)": relabel_copy, "subgraph": subgraph, "enantiomer": enantiomer}
+DERIVATIONS = {"reactant": reactant, "product": product, "reverse_reaction": reverse_reaction, "subgraph(any size)": subgraph_any, "copy": copy, "copy_constructor": copy_constructor, "relabel_atoms(copy=True)": relabel_copy, "relabel_atoms(copy=False)": relabel_inplace, "subgraph": subgraph, "enantiomer": enantiomer}
